@@ -27,6 +27,7 @@ ASSUMPTIONS = [
     'column tables and spike->template maps stay symbolic',
     'PCA clause: np.cov and np.linalg.eigh are unconstrained stubs; what is decided is the selection of the three '
     'leading components by eigenvalue order, the projection indices and the scatter into the requested order',
+    'forms added after seeding rounds: a second from_sparse request on the same data / column-table objects (int32 table)',
 ]
 STUBS = ['np.cov (fresh symmetric matrix)', 'np.linalg.eigh (fresh values/vectors)',
          'TemplateModel.get_waveforms (fresh waveforms) in the PCA configuration']
